@@ -90,7 +90,14 @@ def holdsC13 (i : Info) (t : List Ev) : Bool :=
         match storedCfg pre, i.cfgs[v]? with
         | some a, some cv =>
           let ca := (i.cfgs[a]?).getD cv
-          let creations := w.filter fun e => match e with | .created _ _ _ => true | _ => false
+          let creations := w.filter fun e => match e with | .created _ _ c => true | _ => false
+          -- "when Reload() returns with the state Running the server is serving exactly the new configuration": the
+          -- probe taken right after this reload (every configured route answers through its own handler) succeeds,
+          -- unless a stop or cancel came first
+          (st != "Running" || (List.range t.length).all fun j =>
+            match t[j]? with
+            | some (.probe tag false _) => tag != toString k || (t.take j).any fun e => e == .stopCall || e == .cancel
+            | _ => true) &&
           if specEquiv ca cv then creations.isEmpty && st == "Running"            -- equivalent: instance untouched
           else
             -- not equivalent: Running only through a freshly created server of the new configuration;
